@@ -53,7 +53,7 @@ def py_words_sided(eq, term, rep, rhs, lhs):               # Replace.replace_wor
     return "".join(out)
 
 def py_loop(eq, term, rep, rhs, lhs):                      # Replace.loopA (what the code does, flags included)
-    acc, prev, s, n = "", None, eq, len(term)
+    acc, prev, s, n, seen = "", None, eq, len(term), False
     while True:
         idx = s.find(term)
         if idx < 0:
@@ -63,9 +63,11 @@ def py_loop(eq, term, rep, rhs, lhs):                      # Replace.loopA (what
         rest = s[follow:]
         bound = (rest == "" or rest[0] in DELIMS) and (before is None or before in DELIMS)
         part = s[:idx]
-        side = (rhs and "=" in part) or (lhs and "=" not in part) or (not rhs and not lhs)
+        in_rhs = seen or "=" in part
+        side = (rhs and in_rhs) or (lhs and not in_rhs) or (not rhs and not lhs)
         acc += part + rep if (bound and side) else s[:follow]
         prev = s[follow - 1] if follow > 0 else None
+        seen = seen or "=" in s[:follow]
         s = rest
 
 # ====================================================================================================
